@@ -33,9 +33,9 @@ type c04Scenario struct {
 	Cfg        string   `json:"cfg"`
 	Mode       string   `json:"mode"`
 	ErrMsg     string   `json:"err_msg,omitempty"` // text of client-reported errors: "" (a sentence), empty, blank, multiline
-	Fates      []string `json:"fates"`    // per dispatch position: pass mismatch clienterr empty never setuperr
-	Marks      []string `json:"marks"`    // per dispatch position: "" failing flaky
-	Feedback   []bool   `json:"feedback"` // per dispatch position
+	Fates      []string `json:"fates"`             // per dispatch position: pass mismatch clienterr empty never setuperr
+	Marks      []string `json:"marks"`             // per dispatch position: "" failing flaky
+	Feedback   []bool   `json:"feedback"`          // per dispatch position
 	ClientExit string   `json:"client_exit"`
 	ExitAt     int      `json:"exit_at"`
 }
